@@ -142,3 +142,57 @@ harness!(c11_q_tot_mod_general, {
     assert!(ivalid(r), "result is not a valid interval");
     kani::cover!(!r.has_nan());
 });
+
+// ---- argument errors are error values, never panics, and `Ok` means the
+// evaluators' slice copies cannot go out of step
+fn rs_fixed() -> std::hash::RandomState {
+    // the map is empty in these harnesses: any fixed hasher state will do
+    unsafe { std::mem::zeroed() }
+}
+
+#[cfg_attr(kani, kani::proof)]
+#[cfg_attr(not(kani), test)]
+#[cfg_attr(kani, kani::unwind(5))]
+#[cfg_attr(kani, kani::stub(std::hash::RandomState::new, rs_fixed))]
+fn c11_q_args_bulk() {
+    use fidget_core::var::{Var, VarMap};
+    let mut m = VarMap::new();
+    m.insert(Var::X);
+    m.insert(Var::Y);
+    let data = [0.0f32; 3];
+    let n: usize = kani::any();
+    let (l0, l1, l2): (usize, usize, usize) = (kani::any(), kani::any(), kani::any());
+    kani::assume(n <= 3 && l0 <= 3 && l1 <= 3 && l2 <= 3);
+    let all: [&[f32]; 3] = [&data[..l0], &data[..l1], &data[..l2]];
+    let r = m.check_bulk_arguments(&all[..n]);
+    if n < 2 {
+        assert!(r.is_err(), "too few variables must be an error");
+    } else if r.is_ok() {
+        // every slice the tape will read has the length of the first one
+        assert!(l0 == l1, "Ok although the slices read by the tape differ in length");
+        assert!(n < 3 || l2 == l0, "Ok although a supplied slice differs in length");
+    } else {
+        assert!(!(l0 == l1 && (n < 3 || l2 == l0)), "well-formed argument list rejected");
+    }
+    kani::cover!(r.is_ok() && n == 3);
+    kani::cover!(r.is_err() && n == 3);
+    std::mem::forget(m);
+}
+#[cfg_attr(kani, kani::proof)]
+#[cfg_attr(not(kani), test)]
+#[cfg_attr(kani, kani::unwind(5))]
+#[cfg_attr(kani, kani::stub(std::hash::RandomState::new, rs_fixed))]
+fn c11_q_args_tracing() {
+    use fidget_core::var::{Var, VarMap};
+    let mut m = VarMap::new();
+    m.insert(Var::X);
+    m.insert(Var::Z);
+    let data = [0.0f32; 4];
+    let n: usize = kani::any();
+    kani::assume(n <= 4);
+    let r = m.check_tracing_arguments(&data[..n]);
+    assert!(r.is_ok() == (n >= 2));
+    kani::cover!(r.is_ok());
+    kani::cover!(r.is_err());
+    std::mem::forget(m);
+}
